@@ -379,6 +379,16 @@ class Ctx:
             cov["explanation"] = explanation
         if extra:
             cov.update(extra)
+        # schema: coverage.exhaustive is a boolean; a list of the exhaustively enumerated domains goes beside it
+        if "exhaustive" in cov and not isinstance(cov["exhaustive"], bool):
+            cov["exhaustive_domains"] = cov["exhaustive"]
+            del cov["exhaustive"]
+        for k in ("evaluations", "distinct_nontrivial", "obligations", "discharged", "states", "transitions", "programs"):
+            if k in cov and not isinstance(cov[k], int):
+                try:
+                    cov[k] = int(cov[k])
+                except Exception:
+                    cov[k + "_note"] = str(cov.pop(k))
         ev = {
             "property_id": self.prop,
             "tier": self.tier,
